@@ -464,6 +464,14 @@ Walk:
 
 			// No next static segment found, but maybe some params or wildcard child
 			if idx < 0 {
+				// Tsr recommendation: remove the extra trailing slash (the node we are leaving is an exact match)
+				if !tsr && current.isLeaf() && charsMatchedInNodeFound == len(current.key) && len(path)-charsMatched == 1 && path[charsMatched] == slashDelim {
+					tsr = true
+					n = current
+					if !lazy {
+						copyWithResize(c.tsrParams, c.params)
+					}
+				}
 				// We have at least a param child which is has higher priority that catch-all
 				if current.paramChildIndex >= 0 {
 					// We have also a wildcard child, save it for later evaluation
